@@ -128,6 +128,11 @@ func loadRepoCA(repo string) (*x509.Certificate, *rsa.PrivateKey) {
 	return ca, key
 }
 
+var (
+	hostCA  *x509.Certificate
+	hostKey *rsa.PrivateKey
+)
+
 type credKind struct {
 	name string
 	opt  grpc.DialOption
@@ -149,6 +154,11 @@ func credKinds(repo string) []credKind {
 	oca, okey := newCA("Other authority")
 	oc := mint("client-test01", oca, okey, now.Add(-time.Hour), now.Add(time.Hour))
 	kinds = append(kinds, credKind{"otherca:client-test01", tlsOpt(&oc)})
+	if hostCA != nil {
+		hc := mint("client-test01", hostCA, hostKey, now.Add(-time.Hour), now.Add(time.Hour))
+		hp := mint("signer-test02", hostCA, hostKey, now.Add(-time.Hour), now.Add(time.Hour))
+		kinds = append(kinds, credKind{"hosttrusted:client-test01", tlsOpt(&hc)}, credKind{"hosttrusted:signer-test02", tlsOpt(&hp)})
+	}
 	if ca, key := loadRepoCA(repo); ca != nil {
 		ex := mint("client-test01", ca, key, now.Add(-48*time.Hour), now.Add(-24*time.Hour))
 		kinds = append(kinds, credKind{"expired:client-test01", tlsOpt(&ex)})
@@ -166,6 +176,9 @@ func credKinds(repo string) []credKind {
 	ch2 := tls.Certificate{Certificate: [][]byte{c2.Certificate[0], ss.Certificate[0]}, PrivateKey: c2.PrivateKey}
 	ch3 := tls.Certificate{Certificate: [][]byte{c3.Certificate[0], oc.Certificate[0], ss.Certificate[0]}, PrivateKey: c3.PrivateKey}
 	chs := tls.Certificate{Certificate: [][]byte{s2.Certificate[0], ss.Certificate[0]}, PrivateKey: s2.PrivateKey}
+	// a client's valid leaf followed by a PEER's genuine public certificate (no key needed for that)
+	chp := tls.Certificate{Certificate: [][]byte{c1.Certificate[0], s2.Certificate[0]}, PrivateKey: c1.PrivateKey}
+	kinds = append(kinds, credKind{"chain:client-test01+signer-test02", tlsOpt(&chp)})
 	kinds = append(kinds, credKind{"chain:client-test02+client-test01", tlsOpt(&ch2)}, credKind{"chain:client-test03+client-test01+client-test01", tlsOpt(&ch3)},
 		credKind{"chain:signer-test02+client-test01", tlsOpt(&chs)})
 	kinds = append(kinds, credKind{"valid:client-test01", tlsOpt(&c1)}, credKind{"valid:client-test02", tlsOpt(&c2)},
@@ -249,6 +262,14 @@ func registeredMethods() []string {
 //
 //	<cred> <method> <wallet> refused|served:<summary>|apperr:<grpc code>
 func tlsEngine(workdir, repo string) {
+	// an authority the HOST trusts (system trust store of this process) but the daemon is not configured with:
+	// a certificate it issued must be refused exactly like one from an unknown authority
+	hostCA, hostKey = newCA("Some host-trusted authority")
+	hostPem := filepath.Join(workdir, "host-trust.pem")
+	_ = os.WriteFile(hostPem, pem.EncodeToMemory(&pem.Block{Type: "CERTIFICATE", Bytes: hostCA.Raw}), 0o600)
+	_ = os.MkdirAll(filepath.Join(workdir, "empty-certs"), 0o700)
+	os.Setenv("SSL_CERT_FILE", hostPem)
+	os.Setenv("SSL_CERT_DIR", filepath.Join(workdir, "empty-certs"))
 	port := startDaemon(filepath.Join(workdir, "daemon"))
 	out := bufio.NewWriter(os.Stdout)
 	defer out.Flush()
